@@ -294,20 +294,26 @@ def ctx_docs(e, kind):
     }
 
 
+CTX_INTS_T = CTX_INTS + ["i + 1", "ci + 1", "-ci", "fk() + ci", "(OFF ? i : ci)", "(bb ? 1 : 2)"]
+CTX_BOOLS_T = CTX_BOOLS + ["!OFF", "!bb", "ci == 2", "OFF && bb", "bb || ON", "i == ci"]
+
+
 def shard_contexts(arg):
     kind, a = arg
     import xmlgen as X
     part = engine.Part()
     w = engine.worker("fast")
-    pool_, ops = (CTX_INTS, CTX_INT_OPS) if kind == "int" else (CTX_BOOLS, CTX_BOOL_OPS)
+    thorough = engine.tier() == "thorough"
+    ints, bools = (CTX_INTS_T, CTX_BOOLS_T) if thorough else (CTX_INTS, CTX_BOOLS)
+    pool_, ops = (ints, CTX_INT_OPS) if kind == "int" else (bools, CTX_BOOL_OPS)
     pairs = []
     if kind in ("int", "bool"):
         for b in pool_:
             for op in ops:
                 pairs.append(("%s %s %s" % (a, op, b), "%s %s %s" % (b, op, a), "binary:" + op, kind))
     else:           # inline-if: a is the condition
-        for x in CTX_INTS:
-            for y in CTX_INTS:
+        for x in ints:
+            for y in ints:
                 pairs.append(("%s ? %s : %s" % (a, x, y), "!(%s) ? %s : %s" % (a, y, x), "inline-if", "int"))
     docs, meta = [], []
     for e1, e2, what, k in pairs:
@@ -351,7 +357,7 @@ def main():
     for res in engine.pmap(shard_lvalue_inlineif, LV_POOL):
         rep.merge(res)
     run_refparams(rep)
-    for res in engine.pmap(shard_contexts, [("int", a) for a in CTX_INTS] + [("bool", a) for a in CTX_BOOLS] + [("cond", a) for a in CTX_BOOLS]):
+    for res in engine.pmap(shard_contexts, [("int", a) for a in (CTX_INTS_T if engine.tier() == "thorough" else CTX_INTS)] + [(k_, a) for k_ in ("bool", "cond") for a in (CTX_BOOLS_T if engine.tier() == "thorough" else CTX_BOOLS)]):
         rep.merge(res)
     rep.extra["operand_pool"] = P
     rep.assumptions = ["type kinds are compared after stripping const/range/label wrappers",
